@@ -293,7 +293,7 @@ func (fr *Frame) evalIdent(name string, env *evalEnv) (Value, error) {
 			}
 		}
 		// locals: latest dominating definition
-		if cands, ok := fr.locals[name]; ok {
+		if cands, ok := fr.locals[name]; ok || fr.hasPhiNamed(name) {
 			var best ssa.Value
 			bestKey := -1
 			for _, c := range cands {
@@ -319,6 +319,30 @@ func (fr *Frame) evalIdent(name string, env *evalEnv) (Value, error) {
 				}
 				if key > bestKey {
 					best, bestKey = c, key
+				}
+			}
+			// phis carrying the variable at joins that dominate the current point
+			if fr.cur != nil {
+				for _, b := range fr.fn.Blocks {
+					if !b.Dominates(fr.cur) {
+						continue
+					}
+					for i, in := range b.Instrs {
+						phi, ok := in.(*ssa.Phi)
+						if !ok {
+							break
+						}
+						if phi.Comment != name {
+							continue
+						}
+						if _, ok := fr.vals[phi]; !ok {
+							continue
+						}
+						key := fr.rpoIdx[b]*100000 + i + 1
+						if key > bestKey {
+							best, bestKey = phi, key
+						}
+					}
 				}
 			}
 			if best != nil {
@@ -358,6 +382,24 @@ func (fr *Frame) evalIdent(name string, env *evalEnv) (Value, error) {
 		}
 	}
 	return nil, fmt.Errorf("unknown identifier %q", name)
+}
+
+func (fr *Frame) hasPhiNamed(name string) bool {
+	if fr.fn == nil {
+		return false
+	}
+	for _, b := range fr.fn.Blocks {
+		for _, in := range b.Instrs {
+			phi, ok := in.(*ssa.Phi)
+			if !ok {
+				break
+			}
+			if phi.Comment == name {
+				return true
+			}
+		}
+	}
+	return false
 }
 
 // evalLet evaluates an abbreviation once per evaluation context and names the result,
